@@ -111,6 +111,7 @@ def run(R):
     r11(R)
     r12(R)
     r13(R)
+    r14(R)
 
 
 def shared_dictionary(b, fam, prog, root_a, root_b):
@@ -782,6 +783,7 @@ def r13(R):
                       "of IRIs (`<`, `>`) and literals (`\"`) - so that a `#` inside an IRI fragment or a string is not taken for a comment. A loader that "
                       "only skips lines *starting* with `#` drops the statement (`missing dot`) or reads the words of the comment as another triple")
     found = 0
+    quoted_checked = set()
     for ent in LOADER_ENTRIES:
         b = prog.one("SparqlDatabase::" + ent, crate="kolibrie")
         if b is None:
@@ -796,6 +798,30 @@ def r13(R):
             cs = _char_consts(prog, y) or set()
             if {35, 60, 62, 34} <= cs:
                 scanners.append(y)
+                # inside `<< >>` the exporters write terms without delimiters: the scanner counts the nesting and cuts only at depth zero
+                if y.key not in quoted_checked:
+                    quoted_checked.add(y.key)
+                    counters = set()
+                    for bb, i, pl, rv, st in y.assigns():
+                        if rv["rv"] in ("binop", "checked_binop") and str(rv["op"]).startswith(("Add", "Sub")) and (F.const_int(rv["a"]) == 1 or F.const_int(rv["b"]) == 1):
+                            for o in (rv["a"], rv["b"]):
+                                r0 = y.alias_root(o) if F.op_place(o) else None
+                                if r0 is not None and y.local_ty(r0) in ("usize", "u32", "i32", "u64", "isize", "u8", "u16"):
+                                    counters.add(r0)
+                    # the cut: a slice of the line taken under the `#` test (the early return leaves the scanning loop, so it is not part of the loop body)
+                    cuts = [(c.bb, {"ln": c.ln}) for c in y.calls() if c.name() in ("index", "get", "split_at", "get_unchecked")
+                            and any(cd.get("kind") == "intval" or cd.get("kind") == "cmp" for cd in G.conditions(y, c.bb))]
+                    guarded = False
+                    for bb, st in cuts:
+                        for cd in G.conditions(y, bb):
+                            if cd.get("kind") == "cmp":
+                                n = G.normalize_cmp(y, cd)
+                                if n and any(F.op_place(o) and y.alias_root(o) in counters for o in (n[1], n[2])) and any(F.const_int(o) == 0 for o in (n[1], n[2])):
+                                    guarded = True
+                    R.ob("C13-R13", "quoted-aware:" + y.name, "%s cuts a line at `#` only outside `<< >>` (nesting counters: %d; the cut is guarded by one: %s)"
+                         % (y.name, len(counters), guarded), guarded, where=y.where(),
+                         detail=None if guarded else "the exporters write `<< http://e/s#a http://e/p v >>`: a scanner that does not count `<<` / `>>` cuts the exported line "
+                         "at the fragment, the statement loses its terminator and is dropped on re-import")
         # the scanner is applied to the raw line: called from the body that splits the document into lines (not only from a deeper tokenizer)
         liners = [y for y in reach if not y.is_closure and any(c.name() == "lines" for x in prog.family(y.key) for c in x.calls())]
         direct = [y for y in scanners if any(c.key == y.key for ln in liners for x in prog.family(ln.key) for c in x.calls())]
@@ -803,3 +829,30 @@ def r13(R):
              bool(direct), where=b.where(),
              detail=None if direct else "`<s> <p> \"v\" . # note` is rejected as `missing dot` (N-Triples, N-Quads) or yields the extra triple (`#`, `note`, ..) (Turtle)")
     R.floor("C13-R13", "line loaders", found, 4)
+
+
+def r14(R):
+    """the XML reader hands character data on as written"""
+    prog = R.prog
+    R.rule("C13-R14", "character data is not trimmed by the reader: the RDF/XML loaders do not switch on quick-xml's `trim_text*` (or `trim_markup*`) options. "
+                      "The reader delivers a literal that contains entity references as several text events; trimming trims *each piece*: "
+                      "`Tom &amp; Jerry` is stored as `Tom&Jerry`, and leading / trailing blanks of every literal vanish - the terms are no longer as written, "
+                      "and the same triples loaded from N-Triples differ")
+    n = 0
+    for nm in ("parse_rdf", "parse_rdf_from_file"):
+        b = prog.one("SparqlDatabase::" + nm, crate="kolibrie")
+        if not R.anchor("C13-R14", nm, b):
+            continue
+        n += 1
+        R.saw(b)
+        bad = [c for x in prog.family(b.key) for c in x.calls() if c.name().startswith("trim_text") or c.name() in ("trim_markup_names_in_closing_tags",)
+               and not (len(c.args) >= 2 and F.const_int(c.args[1]) == 0)]
+        bad = [c for c in bad if not (len(c.args) >= 2 and F.const_int(c.args[1]) == 0)]
+        # direct writes to the configuration's fields
+        for x in prog.family(b.key):
+            for bb, i, pl, rv, st in x.assigns():
+                if any(e["k"] == "field" and str(e.get("n", "")).startswith("trim_text") for e in pl["p"]) and not (rv["rv"] == "use" and F.const_int(rv["op"]) == 0):
+                    bad.append(type("W", (), {"ln": st.get("ln"), "name": lambda self=None: "config.trim_text = .."})())
+        R.ob("C13-R14", "untrimmed:" + nm, "%s leaves character data as the document has it (reader options switched on: %s)" % (nm, [c.name() for c in bad]), not bad,
+             where=b.where(bad[0].ln if bad else None))
+    R.floor("C13-R14", "RDF/XML loaders", n, 2)
